@@ -184,11 +184,16 @@ class ForRofOperation(RegisterAllocatableOperation, IRDLOperation, ABC):
 
         # The loop-carried variables are trickier
         # The for op operand, block arg, and yield operand must have the same type
-        for block_arg, operand, yield_operand, op_result in zip(
-            block_args[1:], self.iter_args, yield_op.operands, self.results
-        ):
+        # Values are replaced when they are allocated, so look each group up again
+        # rather than iterating over snapshots that may hold replaced values.
+        for i in range(len(self.iter_args)):
             allocator.allocate_values_same_reg(
-                (block_arg, operand, yield_operand, op_result)
+                (
+                    self.body.block.args[i + 1],
+                    self.iter_args[i],
+                    yield_op.operands[i],
+                    self.results[i],
+                )
             )
 
         # Induction variable
